@@ -22,6 +22,7 @@ package bfe_tls
 //        truncated / extended with honest or stale own length, node dropped / duplicated, all
 //        enclosing lengths honest (so the inner guards are reached); thorough: all pairs of lies;
 //     P4 (thorough) every 2-byte window of the plain and the rich sample set to all 65536 values;
+//     P6 (thorough) every pair of byte positions of the plain and the rich sample x {0,-1,+1,ff}^2;
 //     P5 samples of every type (and their truncations) fed to every other parser.
 //     Oracle: no panic when the input slice has cap == len (so every access outside the message
 //     faults; a panic that disappears when the slice has spare capacity is classified as a read
@@ -479,7 +480,8 @@ func c45domains(th bool) []*c45dom {
 			}, []c45sym{
 				ch("300", func(m *clientHelloMsg) { m.serverName = c45str(300, 3) }),
 			}), solo: []c45sym{
-				ch("max65530", func(m *clientHelloMsg) { m.serverName = c45str(65530, 5) }),
+				// extensions<0..2^16-1>: a single extension body is at most 65535-4 bytes
+				ch("max65526", func(m *clientHelloMsg) { m.serverName = c45str(65526, 5) }),
 			}},
 			{name: "ocspStapling", syms: []c45sym{
 				ch("off", func(m *clientHelloMsg) {}),
@@ -490,7 +492,7 @@ func c45domains(th bool) []*c45dom {
 				ch("three", func(m *clientHelloMsg) { m.supportedCurves = []CurveID{23, 24, 25} }),
 				ch("one", func(m *clientHelloMsg) { m.supportedCurves = []CurveID{0x1d} }),
 			}, solo: []c45sym{
-				ch("max32766", func(m *clientHelloMsg) { m.supportedCurves = c45curves(32766) }),
+				ch("max32764", func(m *clientHelloMsg) { m.supportedCurves = c45curves(32764) }),
 			}},
 			{name: "supportedPoints", syms: []c45sym{
 				ch("none", func(m *clientHelloMsg) {}),
@@ -977,7 +979,7 @@ type c45lie struct {
 	v    int
 }
 
-func (l c45lie) String() string { return fmt.Sprintf("%d%c%d", l.node, l.op, l.v) }
+func (l c45lie) String() string { return fmt.Sprintf("node%d:%c:%d", l.node, l.op, l.v) }
 
 type c45enc struct {
 	lies []c45lie
@@ -1294,8 +1296,12 @@ func c45roundTrip(d *c45dom, m1 handshakeMessage) (outcome, detail string, wire 
 }
 
 func c45brief(m handshakeMessage) string {
-	c := m
-	s := fmt.Sprintf("%+v", c)
+	s := fmt.Sprintf("%+v", m)
+	if i := strings.Index(s, "raw:["); i >= 0 {
+		if j := strings.Index(s[i:], "]"); j >= 0 {
+			s = s[:i] + s[i+j+1:]
+		}
+	}
 	if len(s) > 500 {
 		s = s[:500] + "..."
 	}
@@ -1340,9 +1346,17 @@ func (h *c45h) culprit(d *c45dom, idx []int, outcome string) string {
 		if cur[i] == 0 {
 			continue
 		}
+		// plainest replacement that keeps the outcome: symbol 0, else symbol 1 (list elements
+		// cannot become absent while a later element is present)
 		keep := cur[i]
-		cur[i] = 0
-		if !same(cur) {
+		for _, cand := range []int{0, 1} {
+			if cand >= keep || cand >= len(d.fields[i].syms) {
+				break
+			}
+			cur[i] = cand
+			if same(cur) {
+				break
+			}
 			cur[i] = keep
 		}
 	}
@@ -1460,6 +1474,18 @@ func (d *c45dom) samples() []c45sample {
 	return out
 }
 
+func c45pairValues(b byte) []byte {
+	var vs []byte
+	seen := map[byte]bool{b: true}
+	for _, v := range []byte{0, b - 1, b + 1, 0xff} {
+		if !seen[v] {
+			seen[v] = true
+			vs = append(vs, v)
+		}
+	}
+	return vs
+}
+
 func c45patchValues(b byte, all bool) []byte {
 	var vs []byte
 	if all {
@@ -1572,15 +1598,15 @@ func TestVerifC45(t *testing.T) {
 		}
 		for decl := 0; decl <= 3; decl++ {
 			hdr := []byte{0x16, 0, 0, byte(decl)}
-			h.parse(pi, hdr, true)
+			h.parse(pi, hdr, false)
 			b5 := append(append([]byte{}, hdr...), 0)
 			b6 := append(append([]byte{}, hdr...), 0, 0)
 			for a := 0; a < 256; a++ {
 				b5[4] = byte(a)
-				h.parse(pi, b5, true)
+				h.parse(pi, b5, false)
 				for b := 0; b < 256; b++ {
 					b6[4], b6[5] = byte(a), byte(b)
-					h.parse(pi, b6, true)
+					h.parse(pi, b6, false)
 				}
 			}
 		}
@@ -1609,10 +1635,12 @@ func TestVerifC45(t *testing.T) {
 		ss := allSamples[d.name]
 		pi := d.parser
 		for si, s := range ss {
-			if stop("P2-P4 samples") {
+			if stop("P2-P6 samples") {
 				break
 			}
-			nSamples++
+			if r.Mine(0) {
+				nSamples++
+			}
 			L := len(s.wire)
 			// P2a truncations and extensions
 			if mine() {
@@ -1707,6 +1735,32 @@ func TestVerifC45(t *testing.T) {
 					h.flush()
 				}
 			}
+			// P6 (thorough): every pair of positions of the plain and the rich sample x boundary values
+			if th && si < 2 {
+				buf := append([]byte{}, s.wire...)
+				for i := 0; i < L; i++ {
+					if !mine() {
+						continue
+					}
+					if stop("P6 pairs") {
+						break
+					}
+					oi := buf[i]
+					for _, vi := range c45pairValues(oi) {
+						buf[i] = vi
+						for j := i + 1; j < L; j++ {
+							oj := buf[j]
+							for _, vj := range c45pairValues(oj) {
+								buf[j] = vj
+								h.parse(pi, buf, true)
+							}
+							buf[j] = oj
+						}
+					}
+					buf[i] = oi
+					h.flush()
+				}
+			}
 			// P5 cross: this sample (plain / rich only) and its truncations into every other parser
 			if si < 2 {
 				for pj := range c45parsers {
@@ -1737,7 +1791,7 @@ func TestVerifC45(t *testing.T) {
 		r.Tier(), len(doms), len(c45parsers), c45domSizes(doms), nd, c45maxSample,
 		map[bool]string{false: "boundary values", true: "all 255 other values"}[th],
 		map[bool]string{false: "", true: " + all pairs of length lies"}[th],
-		map[bool]string{false: "", true: ", every 2-byte window of plain+rich samples x 65536 values"}[th]))
+		map[bool]string{false: "", true: ", every 2-byte window of plain+rich samples x 65536 values, every pair of byte positions of plain+rich samples x {0,-1,+1,ff}^2"}[th]))
 	r.Add("sum_roundtrip_cases", rtTotal)
 	r.Add("sum_samples_mutated", nSamples)
 	r.Add("sum_structure_aware_inputs", nTreeInputs)
